@@ -6,6 +6,13 @@ claim("C19", "proof", "table comparison over the type-checked program (const-eva
       "rustc const evaluation / layout computation. 55-60 constants exist in neither reference and are listed as unchecked.",
       "DESIGN.md 5/C19")
 
+claim("C01", "proof", "panic-site census over MIR (Assert terminators, partial/unclassified callees, destructors, recursion) with discharge by value numbering + dominating-guard facts",
+      "Every way the slice parser can panic is one of the enumerated MIR sites; each is discharged by a generic, pointer-width-agnostic rule or reported. "
+      "obligations == discharged means no feasible panic site remains, for all inputs and arguments, in every feature configuration (thorough tier).",
+      "Trusted: rustc inserts an Assert for every trapping operation; core callees classified total in analyzer/callees.py do not panic; "
+      "usize is 32 or 64 bits. User impls of EndianParse/ParseAt are out of scope. Non-termination is C16.",
+      "DESIGN.md 5/C01")
+
 for pid in ["C01", "C02", "C03", "C04", "C05", "C06", "C07", "C08", "C09", "C10", "C11", "C12", "C13", "C14", "C15", "C16", "C17", "C18", "C20"]:
     if pid not in CLAIMS:
         na(pid, "static rule designed (DESIGN.md section 5) but its checker is not built yet in this revision; not claimed until it runs silent on the tree and fires on control mutants")
